@@ -528,6 +528,12 @@ def generate():
     from .translate_ptm import generate_ptm
 
     status.update(generate_ptm(gen))
+    from .translate_sel import generate_sel
+
+    status.update(generate_sel(gen))
+    from .translate_con import generate_con
+
+    status.update(generate_con(gen))
     return status
 
 
